@@ -715,6 +715,8 @@ def wire_histories(rng, tier: str, pts):
         hs.append(("wire-boundary", gw.Hist(version, True, [], [("recv", ln, (), T0) for ln in lines]), "all"))
     for label, h in systematic_wire_histories():
         hs.append((label, h, "all"))
+    for h in lib.EXTRA_HISTORIES:          # histories on which the code as translated leaves the model (check.tie_search)
+        hs.append(("wire-tie-search", h, "all"))
     k = 400 if tier == "quick" else 2500
     for i in range(k):
         version = lib.VERSIONS[i % 5]
@@ -2245,7 +2247,7 @@ def run_c13(ctx) -> Corr:
         corr.count(c["label"].split(":")[0] + (" (saved inside the history)" if c.get("inner") else ""))
         if "facts" in c:
             coverage_of_wire_case(corr, c, kinds)
-        reachable = c["label"].split(":")[0] in ("corpus", "wire-boundary", "wire-random", "wire-systematic")
+        reachable = c["label"].split(":")[0] in ("corpus", "wire-boundary", "wire-random", "wire-systematic", "wire-tie-search")
         # ---- oracle (independent of the model)
         bad = ill_typed(nodes)
         if c["domain"]:
@@ -2427,6 +2429,7 @@ def replay(case: dict) -> int:
 
         cc = asyncio.run(go())
         print("registry held     :", render_nodes(cc["nodes"])[:1500])
+        print("  (attributes)    :", json.dumps(describe(cc["nodes"]), default=str)[:1500])
         print("Persistence.save  :", cc["save"])
         if "text" in cc:
             print("file written      :", cc["text"][:1500])
